@@ -1249,6 +1249,12 @@ func (r *Raft) appendConfigurationEntry(future *configurationChangeFuture) {
 	// it must already decide whether that entry itself is committed.
 	r.leaderState.commitment.setConfiguration(configuration)
 	r.dispatchLogs([]*logFuture{&future.logFuture})
+	if r.getState() != Leader {
+		// The entry could not be stored: dispatchLogs failed the future and
+		// stepped down. A configuration that is not in the log must not take
+		// effect.
+		return
+	}
 	index := future.Index()
 	r.setLatestConfiguration(configuration, index)
 	r.leaderState.commitment.setConfiguration(configuration)
